@@ -49,8 +49,8 @@ def strip_generics(path):
     i, n = 0, len(path)
     depth = 0
     while i < n:
-        if depth == 0 and path.startswith("::<", i) and not path.startswith("::<impl", i):
-            # skip balanced <...>
+        if depth == 0 and path.startswith("::<", i):
+            # balanced <...>
             j = i + 2
             d = 0
             while j < n:
@@ -62,8 +62,10 @@ def strip_generics(path):
                     if d == 0:
                         break
                 j += 1
-            i = j + 1
-            continue
+            # `a::<impl T>::method` is a path segment (kept); `f::<impl AsRef<[u8]>>` at the end is a generic argument (dropped)
+            if not (path.startswith("::<impl", i) and path.startswith("::", j + 1)):
+                i = j + 1
+                continue
         c = path[i]
         if c == "<":
             depth += 1
@@ -191,6 +193,9 @@ class Program:
                     ty = norm_ty(f.params[0][1]).lstrip("&")
                     ty = ty[3:] if ty.startswith("mut") else ty
                     self.index.setdefault(("tr", tr.group(1), ty, method), []).append(name)
+                elif tr and f.ret:
+                    # derived associated function without parameters (Default::default): Self is the return type
+                    self.index.setdefault(("tr", tr.group(1), norm_ty(f.ret), method), []).append(name)
 
     def resolve(self, callee):
         """callee: canonical call-site path (generics stripped) -> def name or None"""
@@ -630,6 +635,9 @@ class Exec:
         raise Unsupported("const " + c)
 
     def eval_named_const(self, c):
+        for rx, fn in getattr(self, "const_hooks", []):
+            if rx.search(c):
+                return fn(self, c)
         # fieldless enum variant constant, e.g. `sighash::SigHash::ANYONECANPAY`
         parts = strip_generics(c).split("::")
         if len(parts) >= 2 and parts[-2] in self.P.enums and parts[-1] in self.P.enums[parts[-2]]:
